@@ -278,10 +278,11 @@ def dump():
         absform, _, rest2 = rest.partition("\t")
         resform, _, rest3 = rest2.partition("\t")
         ropform, _, rest4 = rest3.partition("\t")
-        mkform, _, raform = rest4.partition("\t")
+        mkform, _, rest5 = rest4.partition("\t")
+        raform, _, nzform = rest5.partition("\t")
         m = re.match(r"^(\S+)\s+(\S+)\s+P=(.*?)\s+// (.*)$", line)
         if m:
-            rows.append((m.group(1), m.group(2), m.group(3).strip(), m.group(4).strip(), absform.strip(), resform.strip(), ropform.strip(), mkform.strip(), raform.strip()))
+            rows.append((m.group(1), m.group(2), m.group(3).strip(), m.group(4).strip(), absform.strip(), resform.strip(), ropform.strip(), mkform.strip(), raform.strip(), nzform.strip() == "nz"))
     return rows
 
 def parse_poly(s):
@@ -322,7 +323,7 @@ def main():
             print("PICK NOT FOUND:", fn, text, file=sys.stderr)
             missing += 1
             continue
-        _, op, ps, _, absform, resform, ropform, mkform, raform = cands[0]
+        _, op, ps, _, absform, resform, ropform, mkform, raform, nz = cands[0]
         poly = parse_poly(ps)
         k = poly.pop("", 0)
         # atoms of monomials (split products)
@@ -343,6 +344,11 @@ def main():
             op = FLIP[op]
             k = -k
             atoms = [(a, -c) for a, c in atoms]
+        if nz:
+            # the operands are known to differ at this comparison: one writing per truth side (see cmpSite.differ)
+            NZ = {">=": ">", "<": "<="}
+            op = NZ.get(op, op)
+            ROP = NZ.get(ROP, ROP)
         regs, coefs, seen = [], [], set()
         for a, c in atoms:
             r = leaf_regex(a)
